@@ -73,6 +73,11 @@ CLAIMED = {
    technique="deterministic simulation with stored-byte fault injection (seeded, decoder-directed), isolated crash-tolerant workers",
    note="Trusted base: the independent decoder for locating metadata structures (placement only), the resource oracle constants (1e5+64*size reads, 256 MiB+1100*size bytes), Go toolchain. Sampling, not proof; inputs > 4 MiB not explored.",
    ref="DESIGN.md section 4 C07"),
+ "C08": dict(level="exploration", engine="E2-fault-simulator",
+   text="Per run a seeded filter pipeline (any order of deflate/shuffle/Fletcher-32/LZF) and payload: writer Apply/Remove (lossless), the reader's ApplyFilters on the same bytes and the reader's parser on the stored pipeline message (self-compatible), and stored-chunk fault injection - every single byte position of a Fletcher-32-protected chunk altered with three values, decoding must fail on both sides; half of the runs also take a filtered chunked dataset end to end through the public API over the simulated disk with a restart.",
+   technique="deterministic simulation: writer/reader differential, stored-chunk byte-flip enumeration, end-to-end restart",
+   note="Trusted base: the comparison code in sim/e2/c08.go. Payload generation at package level is plain input generation; the simulation contributes the stored-byte faults and the restart path.",
+   ref="DESIGN.md section 4 C08"),
  "C01": dict(level="exploration", engine="E1-history-simulator",
    text="Seeded deterministic simulation of write/restart/read histories (all dataset types x ranks x layouts x superblock versions x data classes) against an executable reference model; every failing run is minimised and replayed twice in fresh processes before it is reported.",
    technique="deterministic simulation: seeded write/restart/read histories vs reference model over a simulated disk",
